@@ -83,6 +83,12 @@ pub fn probe_parse(s: &str, o: Opts) -> Result<ProbeResult, String> {
 		Ok((v, cm)) => {
 			let fragments = cm.len();
 			let traversed = guard(|| v.traverse().count())?;
+			// the documented shorthands of the traversal must be iterative as well
+			let values = guard(|| v.volume())?;
+			let counted = guard(|| v.count(|_, f| f.is_value()))?;
+			if values != counted || values > traversed {
+				return Err(format!("volume() = {}, count(is_value) = {}, traversal has {} fragments", values, counted, traversed));
+			}
 			drop_value_iter(v);
 			Ok(ProbeResult {
 				ok: true,
@@ -633,7 +639,7 @@ pub fn run(cfg: &Config) -> i32 {
 		cfg,
 		EvidenceMeta {
 			id: "C03",
-			rule: "every input is parsed under all four option values with panics captured; text inputs additionally go through a character source that counts pulls and records the stack address at each pull, then Value::traverse is driven to completion; deep documents (9 shapes x depths 10^3..10^6, thorough 2*10^6) are parsed, traversed and dismantled in 64 KiB threads inside child processes whose exit status is inspected; non-trivial = non-empty input; random/generated inputs counted by hash, deep documents and corpus edits by construction",
+			rule: "every input is parsed under all four option values with panics captured; text inputs additionally go through a character source that counts pulls and records the stack address at each pull, then Value::traverse is driven to completion; deep documents (14 shapes x depths 10^3..10^6, thorough 2*10^6) are parsed, traversed and dismantled in 64 KiB threads inside child processes whose exit status is inspected; non-trivial = non-empty input; random/generated inputs counted by hash, deep documents and corpus edits by construction",
 			exhaustive: false,
 			assumptions: vec![
 				"dropping a returned deeply nested Value is the caller's business and is done iteratively by the harness; what the parser itself drops (partial values on error paths) is part of the observation".into(),
